@@ -744,6 +744,7 @@ pub const GADGETS: &[&str] = &[
     "dangling_return", "dangling_return", "malloc_deref_paths", "malloc_deref_paths",
     "alu_chain", "alu_chain", "sscanf_two_outputs", "call_alloc_driver", "call_alloc_driver",
     "buffer_loop", "buffer_loop", "sprintf_formats", "sprintf_formats", "system_cmd_paths", "global_addr_narrow",
+    "slot_reuse_paths",
 ];
 
 impl<'a> Gen<'a> {
@@ -1267,6 +1268,50 @@ impl<'a> Gen<'a> {
                         self.i_store(&mut b, ret, 0, v);
                     }
                 }
+            }
+            "slot_reuse_paths" => {
+                // two joining paths keep values of different width in the same stack slot (stack
+                // colouring of locals with disjoint lifetimes, unions): an int on one path, a pointer
+                // on the other; the values are small numbers, addresses inside the image, registers
+                let off = -(0x18 + 8 * self.r.below(4) as i64);
+                let narrow = p.ptr / 2;
+                let mut val = |r: &mut Rng, g: &Gen| -> Value {
+                    let width = if r.chance(50) { narrow } else { p.ptr };
+                    match r.below(5) {
+                        0 => cst(g.rodata + 0x20, width),
+                        1 => cst(g.text, width),
+                        2 => cst(g.data + 8, width),
+                        3 => cst(r.below(4096), width),
+                        _ => if width == p.ptr { reg(ret, p.ptr) } else { cst(g.rodata, width) },
+                    }
+                };
+                let mut rr = self.r.fork();
+                let v1 = val(&mut rr, self);
+                let v2 = val(&mut rr, self);
+                let a = slots();
+                let bb = slots();
+                let join = slots();
+                b.next_insn();
+                let cond = self.u(1);
+                b.def(Some(cond.clone()), expr("INT_EQUAL", &[reg(p.killed[1 % p.killed.len()], p.ptr), cst(0, p.ptr)]));
+                let j0 = b.jmp_tid();
+                let j1 = b.jmp_tid();
+                b.jmps.push(json!({"tid": j0, "term": {"mnemonic": "CBRANCH", "goto": {"Direct": tid(format!("blk_{}", hex(a)), &hex(a))}, "condition": cond}}));
+                b.jmps.push(json!({"tid": j1, "term": {"mnemonic": "BRANCH", "goto": {"Direct": tid(format!("blk_{}", hex(bb)), &hex(bb))}}}));
+                out.push(b);
+                for (addr, v) in [(a, v1), (bb, v2)] {
+                    self.note_addr(addr);
+                    let mut pb = Blk::new(addr, None);
+                    self.i_store(&mut pb, p.sp, off, v);
+                    pb.next_insn();
+                    let jt = pb.jmp_tid();
+                    pb.jmps.push(json!({"tid": jt, "term": {"mnemonic": "BRANCH", "goto": {"Direct": tid(format!("blk_{}", hex(join)), &hex(join))}}}));
+                    out.push(pb);
+                }
+                self.note_addr(join);
+                b = Blk::new(join, None);
+                let lw = if self.r.chance(50) { narrow } else { p.ptr };
+                self.i_load(&mut b, ret, p.sp, off, lw);
             }
             "stack_overflow_store" => {
                 // write beyond the own frame into the caller's frame region
